@@ -91,7 +91,8 @@ func fixedSessions() []sessIn {
 		actIn{K: "op", Op: &opIn{K: "ping"}})
 	out := []sessIn{{Profile: "hostile", Name: "fixed-F2-identify-negative-size", Acts: acts},
 		{Profile: "hostile", Name: "fixed-shared-ephemeral-channel", Acts: shared}}
-	return append(out, identitySessions()...)
+	out = append(out, identitySessions()...)
+	return append(out, adminSessions()...)
 }
 
 // identitySessions: the matrix (identity member of the IDENTIFY body) x (live victim:
